@@ -41,10 +41,11 @@ private:
     const OpType& m_op;
     const BOpType& m_Bop;
     mutable Vector m_cache;
+    mutable Vector m_scaled;
 
 public:
     ArnoldiOp(const OpType& op, const BOpType& Bop) :
-        m_op(op), m_Bop(Bop), m_cache(op.rows())
+        m_op(op), m_Bop(Bop), m_cache(op.rows()), m_scaled(op.rows())
     {}
 
     // Move constructor
@@ -53,6 +54,7 @@ public:
     {
         // We emulate the move constructor for Vector using Vector::swap()
         m_cache.swap(other.m_cache);
+        m_scaled.swap(other.m_scaled);
     }
 
     inline Index rows() const { return m_op.rows(); }
@@ -79,12 +81,18 @@ public:
     }
 
     // B-norm of a vector, ||x||_B = sqrt((x^H)Bx)
+    // x is scaled by its largest entry first, so that the quadratic form neither
+    // underflows nor overflows when the entries of x are tiny or huge
     template <typename Arg>
     RealScalar norm(const Arg& x) const
     {
         using std::sqrt;
         using std::real;
-        return sqrt(real(inner_product<Arg, Arg>(x, x)));
+        const RealScalar scale = x.cwiseAbs().maxCoeff();
+        if (!(scale > RealScalar(0)) || !(Eigen::numext::isfinite)(scale))
+            return sqrt(real(inner_product<Arg, Arg>(x, x)));
+        m_scaled.noalias() = x / scale;
+        return scale * sqrt(real(inner_product<Vector, Vector>(m_scaled, m_scaled)));
     }
 
     // The "A" operator to generate the Krylov subspace
@@ -143,9 +151,10 @@ public:
 
     // B-norm of a vector. For regular eigenvalue problems it is simply the L2 norm
     template <typename Arg>
+    // (stableNorm() avoids underflow and overflow of the squares of tiny or huge entries)
     RealScalar norm(const Arg& x) const
     {
-        return x.norm();
+        return x.stableNorm();
     }
 
     // The "A" operator to generate the Krylov subspace
